@@ -15,11 +15,13 @@ from vlib.case import Out, Sub, rng_from
 PROPERTY = "C13"
 TECHNIQUE = ("property-based scenario generation (Hypothesis) + record/replay of every compiled-kernel call: differential over "
              "thread counts (bitwise), OpenMP vs serial build, sanitizer (ASan+UBSan) build, canary buffers, glue dtype table "
-             "parsed from c/_phonopy.cpp, numpy/Python reference implementations per kernel")
+             "parsed from c/_phonopy.cpp; every kernel compared with an independent statement of its semantics (vectorised numpy formulas in "
+             "oracles/kernels.py, exhaustive image enumeration, exact divided differences, 4th-order difference quotient)")
 RULE = ("A scenario = generated crystal (Hall/prototype/centred/P1, >= 2 species where NAC is used), supercell, options "
         "(dense/sparse shortest vectors, full/compact, NAC none|wang|gonze, mesh 2..4, symmetry on/off) driven through the "
         "public API so that the Python layer itself produces the argument tuples of all 19 kernels; up to 10 calls per "
-        "kernel per scenario are recorded. Each recorded call is a case. Non-trivial: outermost loop trip count >= 2 and "
+        "kernel per scenario are recorded; one scenario in eight is a supercell of 130-300 atoms (constructor kernels only: size-dependent "
+        "parallel regions). Each recorded call is a case. Non-trivial: outermost loop trip count >= 2 and "
         "output not all zero. Distinct by (kernel, hash of argument bytes).")
 ASSUMPTIONS = [
     "OpenMP schedules are sampled (thread counts 1,2,3,4,8,16, repeats), not owned: a race needing a rare interleaving can be missed",
